@@ -39,7 +39,7 @@ package openapi
 //@   callspec (*AttributeExpr).Find params a name
 //@       ensures result == ptr(*expr.AttributeExpr, findSpec(a, name)) && result <= alloc() && result >= 0
 //@       modifies nothing
-//@   let cur = ranged(1)[rangeindex]
+//@   let cur = ranged(1)[rangeidx(1)]
 //@   let found = ptr(*expr.AttributeExpr, findSpec(at, cur))
 //@   let excluded = found != nil && !prev(1, mustGen(now(found.Meta)))
 //@   loop 1 modifies elems(string)
